@@ -149,6 +149,23 @@ def line_marker_guard(P, site):
     return "not s.startswith('#line@')" in tests
 
 
+def directives_removed_after_comments(P, site):
+    """in _preprocess a _remove_line_directives pass follows the comment substitution (the only step that can
+    turn the start of a line into `# N`), and _put_back_line_directives is the last rewriting step"""
+    mn, fnode, cls = P.funcs['cparser:_preprocess']
+    order = []
+    for st in fnode.body:
+        for n in ast.walk(st):
+            if isinstance(n, ast.Call):
+                t = u(n.func)
+                if t in ('_remove_line_directives', '_r_comment.sub', '_put_back_line_directives'):
+                    order.append(t)
+    if '_r_comment.sub' not in order:
+        return False
+    i = order.index('_r_comment.sub')
+    return '_remove_line_directives' in order[i + 1:] and order[-1] == '_put_back_line_directives' and '_remove_line_directives' in order[:i]
+
+
 def lock_held_on_all_chains(P, site):
     """every call chain from the entry points to the function passes through a `with self._lock` block"""
     target = site.func
@@ -239,6 +256,9 @@ REVIEWED = [
     ('cparser:Parser._convert_pycparser_error', 'int', 'ValueError', 'int(match.group(1), 10)', 'the group is \\d+', int_after_digit_regex),
     ('cparser:_put_back_line_directives.replace', 'int', 'ValueError', 'int(s[6:])',
      "dominated by s.startswith('#line@'); such markers are only produced by _remove_line_directives", line_marker_guard),
+    ('cparser:_put_back_line_directives.replace', 'raise', 'AssertionError', None,
+     'directive lines are collected before and again after comment removal (fix 5b60166); no later step starts a line with `# N`',
+     directives_removed_after_comments),
     ('cparser:_preprocess', 'assert', 'AssertionError', 'assert p2 > p', 'p is the `=` of a match of =\\s*\\.\\.\\.\\s*[,}]; find(\'...\') is inside the match', preprocess_offsets),
     ('cparser:_preprocess', 'assert', 'AssertionError', "assert csource[p:p + 3] == '...'", 'other alternative of the same regex starts with ...; matches are rewritten right to left', preprocess_offsets),
     ('cparser:Parser.parse', 'raise', 'ValueError', None, 'depends on the packed/pack keyword arguments, not on the text', only_option_names),
